@@ -15,8 +15,11 @@ LEVEL_TEXT = ("Theorems over ALL interleavings, frame lists and backend behaviou
               "available, intake never blocked by handlers, progress unless waiting for the backend. Every run re-checks the proofs, re-extracts the "
               "order of events and held mutexes of handleRequest from the source and compares it with the table the model was written against, "
               "and runs the real Server.Handle over net.Pipe (and a fragmenting writer) with a gated backend.")
-LEVEL_NOTE = ("Trusted: Coq kernel + vm_compute; the hand model is tied to the Go code by LoopGen (syntactic order of events, mutex held, bodies of "
-              "StartTag/ClearTag/TagDone/tflush.handle) and by the differential scenarios only; sync.Mutex/channel semantics, sequential consistency; "
+LEVEL_NOTE = ("True by construction in the model, hence NOT proved but checked on observed frames: a reply carries its request's tag (a reply is its "
+              "request's log entry; tie_calls shows recv's tag is what StartTag/ClearTag/send get), its type is the matching R-type or Rlerror, and no model step "
+              "cancels or duplicates a reply; Loop/Cases.v [solicited] checks tag, type and exactly-once on every observed frame. "
+              "Trusted: Coq kernel + vm_compute; the hand model is tied to the Go code by LoopGen (syntactic order of events, mutex held, bodies of "
+              "StartTag/ClearTag/TagDone/tflush.handle; local identifiers alpha-normalised, so renames do not matter; extracting code of handleRequest into a helper is refused) and by the differential scenarios only; sync.Mutex/channel semantics, sequential consistency; "
               "liveness is 'a server step is enabled' (scheduler fairness assumed). "
               "The clause 'delays only requests that the File contract orders after it' is covered here for the request loop and fidMu "
               "(unrelated fids and a second connection while a request sits in ReadAt/GetAttr/Walk/Close of a clunked or replaced fid/Close in another "
@@ -34,10 +37,13 @@ TRUSTED_BASE = [
     "axioms: none (Print Assumptions: closed under the global context for every property theorem)",
     "go2coq LoopGen (order of events and held mutexes in handleRequest, send sites, bodies of the tag functions)",
     "hand-written model Loop/Model.v, tied by Loop/Tie.v + harness/p9/c06_loop_test.go, vhloop_*_test.go + Loop/Cases.v",
-    "the harness' gated backend, raw frame reader/validator and its race-free scenario generator",
+    "the harness' gated, monitored backend, raw frame reader/validator, race-free scenario generator, and the bookkeeping twin that tells the driver how many replies to await in a phase (a wrong twin shows as a hang or as a model mismatch, never as a pass of a wrong reply)",
+    "props/C06.py to_case/RTYP: translation of observations into Coq terms (request kind -> matching R-type number)",
 ]
 
-RTYP = {"read": 117, "clunk": 121, "attach": 105, "getattr": 25, "setattr": 27, "clone": 127}
+RTYP = {"read": 117, "write": 119, "clunk": 121, "attach": 105, "getattr": 25, "setattr": 27, "clone": 127, "walk1": 111, "lopen": 13,
+        "fsync": 51, "statfs": 9, "readlink": 23, "lock": 53, "xattrwalk": 31, "readdir": 41, "lcreate": 15, "mkdir": 73, "symlink": 17,
+        "mknod": 19, "link": 71, "unlinkat": 77, "renameat": 75, "rename": 21}
 FILES = ["vh_common_test.go", "vhloop_backend_test.go", "vhloop_driver_test.go"]
 
 
@@ -68,13 +74,15 @@ def to_case(o):
             steps.append("SBreak %d%%nat" % st.get("conn", 0))
         elif st["op"] == "hangup":
             steps.append("SHangup %d%%nat" % st.get("conn", 0))
+        elif st["op"] == "hold":
+            steps.append("SRelease 0 0")  # nothing happens in the model: no request is held at gate 0
         else:
             raise ValueError(st["op"])
     phases = ["[%s]" % "; ".join("(%d, %d)" % (r["tag"] + 65536 * r.get("conn", 0), r["typ"]) for r in ph["replies"]) for ph in o["phases"]]
     allr = [r for ph in o["phases"] for r in ph["replies"]] + list(o["trailing"])
     clean = o["left"] == 0 and not o["bad"] and not o["trailing"]
     valid = all(r["valid"] for r in allr)
-    early = any(r.get("inside") for r in allr)
+    early = any(r.get("inside") or r.get("premature") or r.get("late") for r in allr)
     return "CScn [%s] [%s] %s %s %s %s %s %s" % ("; ".join(steps), "; ".join(phases), coq_bool(o["setup"]), coq_bool(o["hung"]),
                                                coq_bool(o["returned"]), coq_bool(clean), coq_bool(valid), coq_bool(early))
 
@@ -97,13 +105,40 @@ def why(o):
     allr = [r for ph in o["phases"] for r in ph["replies"]]
     if not all(r["valid"] for r in allr):
         out.append("malformed (torn) reply frame")
-    if any(r.get("inside") for r in allr):
-        out.append("Rflush arrived while a backend call made on behalf of the flushed request was still running")
+    for r in allr:
+        if r.get("premature"):
+            out.append("Rflush(tag %d) arrived before the gate the flushed request is blocked at was released" % r["tag"])
+        if r.get("inside"):
+            out.append("Rflush(tag %d) arrived while a backend call made on behalf of the flushed request was still running" % r["tag"])
+        if r.get("late"):
+            out.append("a backend call made on behalf of the flushed request began after Rflush(tag %d) had arrived" % r["tag"])
     return "; ".join(out) or "reply multiset: a request answered twice / not at all / unsolicited reply / wrong type"
 
 
-def run_loop(ctx, pid, test, files, shard=40):
-    rc, out, obs = ctx.gotest("p9", "^%s$" % test, FILES + files, timeout=600 if ctx.thorough else 240)
+RULES = {
+    "C06": "scripted scenarios against the real Server.Handle with a gated, fully monitored backend: fixed corpus (flush shapes, duplicate/re-used and boundary tags "
+           "0/0xFFFE/0xFFFF, rejected frames, backend error/panic, a request blocked in ReadAt/WriteAt/FSync/GetAttr/SetAttr/Walk/Close (clunk, replaced fid, stop of "
+           "another connection) with unrelated traffic on other fids and on a second connection, a writer queued behind a blocked reader, peer stops reading, peer hangs "
+           "up), batches of 2-4 with every release order, batches of 8-64 with random release order and immediate tag re-use, bursts with undecodable frames, race-free "
+           "random scripts; some over the fragmenting writer",
+    "C14": "scripted scenarios against the real Server.Handle with a gated, fully monitored backend (every File method records enter/exit): flush of own / idle / "
+           "answered / later / other-connection tag, two flushes naming each other, 1-3 and chained flushes of one or two blocked requests with every release order "
+           "and mode (ok, error, panic), boundary tags 0/0xFFFE/0xFFFF for the flushed request and for the flush, the flushed request ranging over 23 request kinds "
+           "(read, write, fsync, getattr, setattr, clone, walk, lopen, readdir, readlink, statfs, lock, xattrwalk, lcreate, mkdir, symlink, mknod, link, unlinkat, "
+           "renameat, rename, clunk, attach onto an occupied fid), gates held shut for 200 ms, every corpus scenario also over the fragmenting writer, flush-heavy "
+           "race-free random scripts (gated reads and writes)",
+}
+
+
+def nontrivial(o):
+    """a scenario that exercises the property: something is blocked, flushed, rejected, dropped or sent concurrently"""
+    fr = [f for st in o["scn"]["steps"] for f in (st.get("frames") or [])]
+    return any(f["gate"] >= 0 or f["k"] in ("flush", "badtype", "short", "rmsg") for f in fr) or any(len(st.get("frames") or []) > 1 for st in o["scn"]["steps"])
+
+
+def run_loop(ctx, pid, test, files, shard=40, seed=None):
+    rc, out, obs = ctx.gotest("p9", "^%s$" % test, FILES + files, timeout=600 if ctx.thorough else 240,
+                              env=({"VERIF_SEED": seed} if seed is not None else None))
     obs = [o for o in obs if o.get("kind") == "scn"]
     if rc != 0 or not obs:
         ctx.harness_broken("harness %s failed (rc=%d)" % (test, rc), out)
@@ -147,20 +182,32 @@ def run_loop(ctx, pid, test, files, shard=40):
                                "case": {"scn": o["scn"], "phases": o["phases"]}})
     nfr = [sum(len(s.get("frames") or []) for s in o["scn"]["steps"]) for o in obs]
     nrep = sum(len(ph["replies"]) for o in obs for ph in o["phases"])
-    distinct = len({str(o["scn"]["steps"]) + str(o["scn"]["frag"]) for o in obs})
-    nflush = sum(1 for o in obs for ph in o["phases"] for r in ph["replies"] if r["typ"] == 109)
-    ntarget = sum(1 for o in obs for ph in o["phases"] for r in ph["replies"] if r["typ"] == 109 and r["target"] >= 0)
+    distinct = len({str(o["scn"]["steps"]) + str(o["scn"]["frag"]) + str(o["scn"].get("kinds")) for o in obs if nontrivial(o)})
+    fl = [r for o in obs for ph in o["phases"] for r in ph["replies"] if r["typ"] == 109]
+    kinds = {}
+    for o in obs:
+        for st in o["scn"]["steps"]:
+            for f in (st.get("frames") or []):
+                kinds[f["k"]] = kinds.get(f["k"], 0) + 1
+    def pick(pred):
+        return next((o for o in obs if pred(o)), obs[0])
     ctx.coverage.update({
         "evaluations": len(obs),
         "distinct_nontrivial": distinct,
-        "rule": "scripted scenarios against the real Server.Handle with a gated backend: fixed corpus (flush shapes, duplicate/re-used and boundary tags, rejected frames, "
-                "backend error/panic, a request blocked in ReadAt/GetAttr/SetAttr/Walk/Close (clunk, replaced fid, stop of another connection) with unrelated traffic "
-                "on other fids and on a second connection, peer stops reading, peer hangs up), batches of 2-4 with every release order, batches of 8-64 with random "
-                "release order and immediate tag re-use, race-free random scripts; some over the fragmenting writer; distinct = distinct scripts",
+        "distinct_nontrivial_means": "distinct scripts (steps + writer + fid layout) in which something is blocked, flushed, rejected, dropped or sent back to back",
+        "rule": RULES[pid],
         "correspondence": {"cases": len(obs), "mismatches": nm, "frames_sent": sum(nfr), "max_frames_in_a_scenario": max(nfr), "replies_seen": nrep,
-                           "rflush_seen": nflush, "rflush_with_a_gated_target": ntarget,
+                           "frames_by_kind": kinds, "rflush_seen": len(fl),
+                           "rflush_whose_target_was_held_at_a_gate": sum(1 for r in fl if r["target"] >= 0),
+                           "rflush_premature_or_inside_or_late": sum(1 for r in fl if r.get("premature") or r.get("inside") or r.get("late")),
+                           "two_connection_scenarios": sum(1 for o in obs if o["scn"].get("nconn", 1) > 1),
                            "fragmenting_writer_scenarios": sum(1 for o in obs if o["scn"]["frag"])},
-        "samples": [obs[0], obs[len(obs) // 2]["scn"]],
+        "samples": [
+            {"what": "chained flushes of a blocked request", "obs": pick(lambda o: o["scn"]["name"].startswith("chain") or o["scn"]["name"] == "flush-gated")},
+            {"what": "largest scenario (script only)", "scn": max(obs, key=lambda o: len(o["scn"]["steps"]))["scn"]["name"],
+             "steps": len(max(obs, key=lambda o: len(o["scn"]["steps"]))["scn"]["steps"])},
+            {"what": "a random script", "obs": pick(lambda o: o["scn"]["name"].startswith("rand"))},
+        ],
     })
 
 
@@ -168,10 +215,20 @@ def run(ctx):
     run_loop(ctx, "C06", "TestVerifC06", ["c06_loop_test.go"])
 
 
-def search(ctx):
-    """Obligation or correspondence broken and no observed failure: run the thorough budget."""
+def search_loop(ctx, pid, test, files):
+    """An obligation (e.g. a table of Loop/Tie.v) or the correspondence broke and nothing was observed:
+    look for a concrete failing scenario within ctx.search_budget_s - fresh seeds of the generator
+    (each run also repeats the fixed corpus), the thorough budget only in the thorough tier."""
+    import time
+    t0 = time.time()
+    budget = getattr(ctx, "search_budget_s", 150)
     if ctx.thorough:
         return
-    ctx.tier = "thorough"
-    ctx.thorough = True
-    run(ctx)
+    k = 0
+    while not ctx.violations and time.time() - t0 < budget * 0.45 and k < 3:
+        k += 1
+        run_loop(ctx, pid, test, files, seed=ctx.seed + 1000 * k)
+
+
+def search(ctx):
+    search_loop(ctx, "C06", "TestVerifC06", ["c06_loop_test.go"])
